@@ -21,7 +21,9 @@ Palette == << Card(1, "px", <<-1>>), Card(2, "px", <<1>>), Card(3, "py", <<0>>),
               Card(10, "rpp", <<-2, 2, -2, 2, -1, 3>>), Card(11, "px", <<1>>),
               Card(12, "p", <<1, 0, 0, -1>>), Card(13, "cz", <<2>>), Card(14, "py", <<0>>),
               (* the plane of card 8 and the plane of card 3 written with the opposite normal: same locus, opposite sense *)
-              Card(15, "p", <<-1, -1, 0, -1>>), Card(16, "p", <<0, -2, 0, 0>>) >>
+              Card(15, "p", <<-1, -1, 0, -1>>), Card(16, "p", <<0, -2, 0, 0>>),
+              (* px -1 (card 1) and px -2: -1.0 and -2.0 have the same hash in CPython; they are two surfaces *)
+              Card(17, "px", <<-2>>) >>
 SurfLeaves == { <<"S", s * n, 0>> : s \in {-1, 1}, n \in 1..Len(Palette) }
               \cup { <<"S", s * 10, f>> : s \in {-1, 1}, f \in 1..6 }
 
